@@ -85,6 +85,11 @@ def whereGraph (c x y : TG) (code : Nat) : TG :=
   else if code = 4 ∨ code = 12 ∨ code = 13 then .cast code (.sel c (.cast 7 x) (.cast 7 y))
   else .sel c x y
 
+/-- `x[idx] = updates` for an integer index array (rank ≥ 1 operand): the index applied to the coordinate grid (`Gather`
+on its leading axis, after the int64 cast), `Expand` of the update, `ScatterND`. -/
+def setitemIntGraph (x idx upd : TG) (rank code : Nat) : TG :=
+  scatterWith x (intIndexGraph (ndindexGraph x rank) idx code) upd
+
 /-- `tril(x, k)` / `triu(x, k)` on an integer array of ONNX element type `t`: through int64. -/
 def triluGraph (x : TG) (t : Nat) (upper : Bool) (k : Int) : TG :=
   viaI64 t (fun y => .trilu upper y (iscalar k)) x
